@@ -159,6 +159,31 @@ def check(run):
                     lines.append("cmp %s %s %s %s %d" % (tie, mode, hexb(stored(mode, *a)), hexb(b[0]), b[1]))
                     meta.append(("cmp", mode, i, j))
             triples.append((mode, ks, base))
+    # --- the node-level shortcut through the cached 115-byte prefix (_lx_sblk_cmp_key), called directly: for every pair of
+    #     a triple the node caches the first 115 bytes of the stored key a (flag = whole key cached) and key b is looked up;
+    #     the answer is the model's sblk_cmp_key (T2); a decided answer must be what the complete keys give (oracle, below)
+    for mode, ks, base in triples:
+        for i in range(3):
+            for j in range(3):
+                st = stored(mode, *ks[i])
+                b = ks[j]
+                lines.append("sblkcmp %s %s %d %s %d" % (mode, hexb(st[:115]), 1 if len(st) <= 115 else 0, hexb(b[0]), b[1]))
+                meta.append(("sblkcmp", mode, base + 3 * i + j))
+    # directed: stored keys longer than the cached part, look-up keys that end around its end (with compound parts whose
+    # varints take 1, 2, 5 and 9 bytes, so that the cached part ends at different places inside the key bytes)
+    for mode in ("000", "001"):
+        for comp_s in ([0] if mode == "000" else [0, 5, 300, 1 << 30, (1 << 62) + 1]):
+            for slen in (116, 117, 130):
+                sdata = b"k" * (slen - 1) + b"m"
+                st = stored(mode, sdata, comp_s)
+                for klen in range(104, 119):
+                    for tail in (b"", b"j", b"l"):
+                        kdata = (sdata[:klen - len(tail)] + tail) if klen > len(tail) else tail
+                        for comp_k in ([0] if mode == "000" else [comp_s, 1 << 40]):
+                            lines.append("cmp %s %s %s %s %d" % (tie, mode, hexb(st), hexb(kdata), comp_k))
+                            meta.append(("cmp-directed", mode))
+                            lines.append("sblkcmp %s %s 0 %s %d" % (mode, hexb(st[:115]), hexb(kdata), comp_k))
+                            meta.append(("sblkcmp", mode, len(lines) - 2))
     for _ in range(N):
         a, b = numstr(rng), numstr(rng)
         if rng.chance(1, 3):
@@ -218,6 +243,10 @@ def check(run):
                     viol(i, "iwatoi(iwitoa-form text) != value: %s -> %s" % (s, o))
             except ValueError:
                 pass
+        elif m[0] == "sblkcmp":
+            full = out_i[m[2]].split()[0] if m[2] < len(out_i) else None
+            if o not in ("NONE", full) and m[1] in ("000", "001"):
+                viol(i, "the cached prefix of a node decides %s where the complete stored key gives %s: %s" % (o, full, lines[i]))
         elif m[0] == "neq":
             if o.split()[0] == "0":
                 viol(i, "different keys compare equal: %s" % lines[i])
